@@ -689,7 +689,7 @@ def gen_case(w: World, rng: random.Random, max_ops: int, search: bool) -> list[t
 
 	def scenario() -> None:
 		"""structured prefixes: history shapes the property names explicitly (DESIGN §5 C19, CONVENTIONS 15/16)"""
-		kind = rng.choice(['invoke-combine-invoke', 'generic-alias', 'combine-after-resolve', 'clone-lazy', 'none', 'none'])
+		kind = rng.choice(['invoke-combine-invoke', 'generic-alias', 'combine-after-resolve', 'clone-lazy', 'production-shape', 'none', 'none'])
 		lazy = rng.random() < 0.5
 		if kind == 'none':
 			new_cont()
@@ -734,6 +734,30 @@ def gen_case(w: World, rng: random.Random, max_ops: int, search: bool) -> list[t
 			emit(('rebind', 2, s, rng.choice([0, 15])))
 			for c in rng.sample([0, 1, 2], 3):
 				emit(('resolve', c, s))
+		elif kind == 'production-shape':
+			# providers/app.py + providers/syntax/entrypoints.py in miniature: a shared container, then per "module": pre-resolve in the
+			# shared one, a fresh container of definitions, combine, rebind two symbols, bind one, resolve; shared resolves interleaved
+			pre = rng.sample(range(NSYM), 2)
+			for p in pre:
+				if p not in ref.conts[0].ents:
+					emit(('bind', 0, (p, False), rng.choice([0, 15, 12])))
+			for _ in range(rng.randint(1, 2)):
+				if len(ref.conts) + 2 > MAX_CONTS:
+					break
+				for p in pre:
+					if rng.random() < 0.85:
+						emit(('resolve', 0, (p, p >= 4 and rng.random() < 0.5)))
+				local = [x for x in range(NSYM) if x not in pre]
+				emit(('new', 'lazy', [(x, rinj()) for x in rng.sample(local, rng.randint(1, 3))]))
+				d = len(ref.conts) - 1
+				emit(('combine', 0, d))
+				m = len(ref.conts) - 1
+				emit(('rebind', m, (pre[0], False), rng.choice([0, 15, 12])))
+				emit(('bind', m, rsym(m, False), rng.choice([0, 15, 12])))
+				emit(('resolve', m, rsym(m, True)))
+				emit(('resolve', 0, rsym(0, True)))
+				for p in pre:
+					emit(('resolve', m, (p, False)))
 		elif kind == 'clone-lazy':
 			s = rsym(0, True)
 			emit(('clone', 0))
@@ -871,6 +895,334 @@ def stream_malformed(ctx: Ctx, w: World) -> Stream:
 
 
 # ---------------------------------------------------------------------------------------------
+# production stream: the op sequences tranp itself performs (providers/app.py di_container, providers/syntax/entrypoints.py)
+
+
+PROD_SOURCES = [
+	'class A:\n\tdef f(self, n: int) -> int:\n\t\treturn n + 1\n\nx = A().f(1)\n',
+	'def g(a: int, b: str) -> str:\n\treturn b\n\ny = g(1, "s")\n',
+	'from typing import Generic, TypeVar\n\nT = TypeVar("T")\n\nclass B(Generic[T]):\n\tdef __init__(self, v: T) -> None:\n\t\tself.v: T = v\n\nz = B[int](1).v\n',
+	'values = [1, 2, 3]\nfor v in values:\n\tprint(v)\n',
+]
+PROD_MODULES = ['rogw.tranp.lang.locator', 'rogw.tranp.module.types', 'rogw.tranp.lang.convertion', 'rogw.tranp.lang.sequence',
+	'rogw.tranp.lang.dict', 'rogw.tranp.lang.annotation', 'rogw.tranp.errors']
+NO_TYPE = 999999
+
+
+class ProdLog:
+	"""Runs real tranp work on logging subclasses of LazyDI and translates the log into model op lines.
+
+	Nothing in /repo is instrumented: `LazyDI.instantiate` / `_clone` create instances of the receiver's class, so a subclass
+	defined here sees every call the production code makes on the shared and on the per-module containers.
+	"""
+
+	def __init__(self) -> None:
+		from rogw.tranp.lang.di import LazyDI
+
+		self.entries: list[tuple] = []
+		self.conts: list[Any] = []
+		self.keep: list[Any] = []
+		self.depth = 0
+		self.reentrant = 0
+		log = self
+
+		def external() -> bool:
+			return not sys._getframe(2).f_code.co_filename.replace(os.sep, '/').endswith('lang/di.py')
+
+		class LogDI(LazyDI):
+			def __init__(self) -> None:
+				super().__init__()
+				log.conts.append(self)
+				self.cid = len(log.conts) - 1
+				self.defs_logged = False
+
+			@classmethod
+			def instantiate(cls, definitions: dict) -> Any:
+				di = super().instantiate(definitions)
+				log.entries.append(('new', di.cid, dict(definitions)))
+				return di
+
+			def _run(self, ext: bool, kind: str, payload: tuple, fn: Any) -> Any:
+				if not ext:
+					return fn()
+				# a factory may itself call a container (e.g. a handler run through `invoker` that uses `invoker` again): such a
+				# nested call starts after every container effect of the enclosing invoke, so the log keeps *start* order
+				if log.depth > 0:
+					log.reentrant += 1
+				log.depth += 1
+				entry = [kind, self.cid, *payload, None]
+				log.entries.append(entry)
+				try:
+					r = fn()
+					entry[-1] = ('ok', r)
+					return r
+				except Exception as e:  # noqa: BLE001
+					entry[-1] = ('err', e)
+					raise
+				finally:
+					log.depth -= 1
+
+			def resolve(self, symbol: Any) -> Any:
+				return self._run(external(), 'resolve', (symbol,), lambda: LazyDI.resolve(self, symbol))
+
+			def can_resolve(self, symbol: Any) -> bool:
+				return self._run(external(), 'can', (symbol,), lambda: LazyDI.can_resolve(self, symbol))
+
+			def bind(self, symbol: Any, injector: Any) -> None:
+				return self._run(external(), 'bind', (symbol, injector), lambda: LazyDI.bind(self, symbol, injector))
+
+			def rebind(self, symbol: Any, injector: Any) -> None:
+				return self._run(external(), 'rebind', (symbol, injector), lambda: LazyDI.rebind(self, symbol, injector))
+
+			def unbind(self, symbol: Any) -> None:
+				return self._run(external(), 'unbind', (symbol,), lambda: LazyDI.unbind(self, symbol))
+
+			def invoke(self, factory: Any, *args: Any) -> Any:
+				if not external():
+					return LazyDI.invoke(self, factory, *args)
+				# how many leading annotations the container can resolve right now decides which remaining argument is
+				# checked against which annotation (observed before the call; can_resolve is pure)
+				annos = [p.annotation for p in inspect.signature(factory).parameters.values() if p.annotation is not p.empty]
+				n = 0
+				for a in annos:
+					if not LazyDI.can_resolve(self, a):
+						break
+					n += 1
+				tys = []
+				for i, arg in enumerate(args):
+					exp = annos[n + i] if n + i < len(annos) else None
+					ok = exp is not None and isinstance(arg, getattr(exp, '__origin__', exp))
+					tys.append(exp if ok else None)
+				return self._run(True, 'invoke', (factory, tuple(tys)), lambda: LazyDI.invoke(self, factory, *args))
+
+			def combine(self, other: Any) -> Any:
+				r = LazyDI.combine(self, other)
+				log.entries.append(('combine', self.cid, dict(other._LazyDI__definitions), r.cid))
+				return r
+
+		self.cls = LogDI
+
+
+def production_run(ctx: Ctx, rng: random.Random, n_sources: int, n_modules: int) -> tuple[ProdLog, Any]:
+	"""di_container(...) re-enacted on the logging class, then real work: Modules.load of in-memory sources (which loads the
+	standard library modules through per-module containers) and Entrypoints.load of real modules."""
+	from rogw.tranp.app.config import default_definitions
+	from rogw.tranp.lang.annotation import duck_typed
+	from rogw.tranp.lang.locator import Invoker, Locator
+	from rogw.tranp.lang.module import to_fullyname
+	from rogw.tranp.module.modules import Modules
+	from rogw.tranp.module.types import ModulePath, ModulePaths
+	from rogw.tranp.providers.module import module_path_dummy
+	from rogw.tranp.providers.syntax.ast import source_provider
+	from rogw.tranp.syntax.ast.entrypoints import Entrypoints
+	from rogw.tranp.syntax.ast.parser import SourceProvider
+
+	log = ProdLog()
+	main = module_path_dummy().path
+	src = {'v': ''}
+	real_sp: dict[str, Any] = {}
+
+	@duck_typed(SourceProvider)
+	def provider(module_path: str) -> str:
+		return src['v'] if module_path == main else real_sp['f'](module_path)
+
+	defs = {**default_definitions(), **common.tranp_definitions(ctx.tmpdir(), {
+		to_fullyname(ModulePaths): lambda: [ModulePath(main, language='py')],
+		to_fullyname(SourceProvider): lambda: provider,
+	})}
+	# providers/app.py:17-20
+	di = log.cls.instantiate(defs)
+	di.bind(Locator, lambda: di)
+	di.bind(Invoker, lambda: di.invoke)
+	real_sp['f'] = di.invoke(source_provider)
+	mods = di.resolve(Modules)
+	eps = di.resolve(Entrypoints)
+	work: list[tuple[str, str]] = [('src', s) for s in rng.sample(PROD_SOURCES, min(n_sources, len(PROD_SOURCES)))]
+	work += [('mod', m) for m in rng.sample(PROD_MODULES, min(n_modules, len(PROD_MODULES)))]
+	rng.shuffle(work)
+	for kind, what in work:
+		try:
+			if kind == 'src':
+				src['v'] = what
+				mods.unload(main)
+				eps.unload(main)
+				mods.load(main)
+			else:
+				eps.load(what)
+		except Exception:  # noqa: BLE001 - a module outside the grammar still leaves its container ops in the log
+			pass
+	return log, di
+
+
+def production_case(ctx: Ctx, w: World, rng: random.Random, n_sources: int, n_modules: int, n_probes: int) -> tuple[dict, list[str], list[str]]:
+	from rogw.tranp.lang.di import LazyDI
+	from rogw.tranp.lang.module import load_module_path
+
+	log, _ = production_run(ctx, rng, n_sources, n_modules)
+	# probes: queries the production code does not make, on every container it made (sharing, isolation, closures)
+	seen_syms: list[Any] = []
+	for e in log.entries:
+		if e[0] in ('resolve', 'can', 'bind', 'rebind', 'unbind') and e[2] not in seen_syms:
+			seen_syms.append(e[2])
+		if e[0] in ('new', 'combine'):
+			for path in e[2]:
+				cls = load_module_path(path)
+				if cls not in seen_syms:
+					seen_syms.append(cls)
+	resolved_somewhere = [e[2] for e in log.entries if e[0] == 'resolve' and e[-1][0] == 'ok']
+	for _ in range(n_probes):
+		c = rng.choice(log.conts)
+		sym = rng.choice(seen_syms)
+		try:
+			if rng.random() < 0.5 or sym not in resolved_somewhere:
+				c.can_resolve(sym)
+			else:
+				c.resolve(sym)
+		except Exception:  # noqa: BLE001
+			pass
+
+	sym_ids: dict[Any, int] = {}
+	fac_ids: dict[int, int] = {}
+	aid_ids: dict[Any, int] = {}
+	obj_ids: dict[int, int] = {}
+	keep: list[Any] = []
+
+	def sym(s: Any) -> str:
+		origin = getattr(s, '__origin__', s)
+		k = sym_ids.setdefault(origin, len(sym_ids))
+		return f"{'g' if origin is not s else 's'}{k}"
+
+	def fac(f: Any) -> str:
+		keep.append(f)
+		fid = fac_ids.setdefault(id(f), len(fac_ids))
+		if isinstance(f, (FunctionType, MethodType)):
+			annotated = f
+		elif not isinstance(f, type) and hasattr(f, '__call__'):
+			annotated = f.__call__
+		else:
+			annotated = f.__init__
+		aid = aid_ids.setdefault(annotated, len(aid_ids))
+		ps = []
+		for p in inspect.signature(f).parameters.values():
+			assert p.kind == p.POSITIONAL_OR_KEYWORD and p.default is p.empty, (f, p)
+			ps.append('_' if p.annotation is p.empty else sym(p.annotation))
+		return f"f{fid}/{aid}/{','.join(ps) or '-'}"
+
+	def defs_txt(d: dict) -> str:
+		items = []
+		names: dict[str, int] = {}
+		for path, inj in d.items():
+			key = sym(load_module_path(path))
+			if isinstance(inj, str):
+				n = names.setdefault(inj, len(names))
+				try:
+					items.append(f'{key}=n{n}@{fac(load_module_path(inj))}')
+				except ModuleNotFoundError:
+					items.append(f'{key}=n{n}!mod')
+				except AttributeError:
+					items.append(f'{key}=n{n}!attr')
+			else:
+				items.append(f'{key}={fac(inj)}')
+		return ';'.join(items) or '-'
+
+	def obj(o: Any) -> str:
+		keep.append(o)
+		return f'obj#{obj_ids.setdefault(id(o), len(obj_ids))}'
+
+	lines: list[str] = ['reset']
+	real: list[str] = ['ok']
+	cmap: dict[int, int] = {}
+	n_model = 0
+	xid = 0
+	kinds: Counter[str] = Counter()
+	for e in log.entries:
+		kind = e[0]
+		if kind in ('resolve', 'invoke') and e[-1] is not None and e[-1][0] == 'err' and exc_enum(e[-1][1]).startswith(('Errors.', 'Other:')):
+			# the body of a real factory raised (e.g. a module outside the grammar): model factories do not fail, stop here
+			kinds['truncated-at-factory-error'] += 1
+			break
+		kinds[kind] += 1
+		if kind == 'new':
+			lines.append(f'new\tlazy\t{defs_txt(e[2])}')
+			cmap[e[1]] = n_model
+			real.append(f'c{n_model}')
+			n_model += 1
+		elif kind == 'combine':
+			lines.append(f'new\tlazy\t{defs_txt(e[2])}')
+			real.append(f'c{n_model}')
+			lines.append(f'combine\t{cmap[e[1]]}\t{n_model}')
+			cmap[e[3]] = n_model + 1
+			real.append(f'c{n_model + 1}')
+			n_model += 2
+		else:
+			c = cmap[e[1]]
+			res = e[-1]
+			if kind in ('bind', 'rebind'):
+				lines.append(f'{kind}\t{c}\t{sym(e[2])}\t{fac(e[3])}')
+				real.append('ok' if res[0] == 'ok' else exc_enum(res[1]))
+			elif kind == 'unbind':
+				lines.append(f'unbind\t{c}\t{sym(e[2])}')
+				real.append('ok' if res[0] == 'ok' else exc_enum(res[1]))
+			elif kind == 'can':
+				lines.append(f'can\t{c}\t{sym(e[2])}')
+				real.append(('true' if res[1] else 'false') if res[0] == 'ok' else exc_enum(res[1]))
+			elif kind == 'resolve':
+				lines.append(f'resolve\t{c}\t{sym(e[2])}')
+				real.append(obj(res[1]) if res[0] == 'ok' else exc_enum(res[1]))
+			elif kind == 'invoke':
+				args = []
+				for t in e[3]:
+					xid += 1
+					args.append(f"x{xid}:{NO_TYPE if t is None else sym_ids.setdefault(getattr(t, '__origin__', t), len(sym_ids))}")
+				lines.append(f"invoke\t{c}\t{fac(e[2])}\t{','.join(args) or '-'}")
+				real.append('obj' if res[0] == 'ok' else exc_enum(res[1]))
+	desc = {'kind': 'production', 'ops': len(lines), 'containers': n_model, 'reentrant': log.reentrant, 'kinds': dict(kinds)}
+	return desc, lines, real
+
+
+def canon_model_production(lines: list[str], outs: list[str]) -> list[str]:
+	"""resolve -> first-seen numbering of instance ids; invoke -> `obj` (a factory may hand back an existing object)"""
+	ids: dict[str, int] = {}
+	res = []
+	for line, o in zip(lines, outs):
+		if line.startswith('resolve\t') and o.startswith('i'):
+			res.append(f"obj#{ids.setdefault(o.split(':')[0], len(ids))}")
+		elif line.startswith('invoke\t') and o.startswith('i'):
+			res.append('obj')
+		else:
+			res.append(o)
+	return res
+
+
+def stream_production(ctx: Ctx, w: World) -> Stream:
+	rng = ctx.sub_rng('production')
+	st = Stream('di-production')
+	hist: Counter[str] = Counter()
+	for i in range(ctx.scale(2, 6)):
+		desc, lines, real = production_case(ctx, w, rng, ctx.scale(1, 2), ctx.scale(2, 4), ctx.scale(150, 600))
+		model = canon_model_production(lines, common.lean_driver('di', lines))
+		st.cases += 1
+		st.distinct += 1
+		for k, v in desc['kinds'].items():
+			hist[f'op:{k}'] += v
+		hist['containers'] += desc['containers']
+		hist['reentrant-calls'] += desc['reentrant']
+		for j, (ln, r, m) in enumerate(zip(lines, real, model)):
+			if r != m:
+				st.disagreements.append({'case': {'kind': 'production', 'case_index': i}, 'op_index': j, 'op': ln, 'real': r, 'model': m,
+					'ops': lines[max(0, j - 40):j + 1]})
+				break
+		if len(st.samples) < 2:
+			st.samples.append({'ops': [ln for ln in lines if not ln.startswith('invoke')][:12], 'real': real[:4], 'size': desc})
+	st.histogram = dict(hist)
+	st.note = ('op log of real tranp work on logging subclasses of LazyDI (nothing in /repo instrumented): di_container re-enacted, Modules.load of in-memory '
+		'sources (loads the standard library through per-module containers built by providers/syntax/entrypoints.py) and Entrypoints.load of real modules, '
+		'followed by random can/resolve probes on every container; the log (new / bind / rebind / resolve / can / invoke / combine with container ids) is fed '
+		'to the Lean model; observations: container ids, can answers, exception enum, first-seen numbering of resolved instance identities')
+	return st
+
+
+# ---------------------------------------------------------------------------------------------
 # search: real code vs the ideal reference
 
 
@@ -959,6 +1311,67 @@ def search_reference(ctx: Ctx, w: World) -> SearchResult:
 	return res
 
 
+def search_production(ctx: Ctx) -> SearchResult:
+	"""The isolation laws of the usage pattern, checked directly on the containers real tranp work leaves behind."""
+	from rogw.tranp.lang.locator import Invoker, Locator
+
+	rng = ctx.sub_rng('production-laws')
+	res = SearchResult('isolation laws on the shared and per-module containers of real module loads (object identity, no model involved)')
+	hist: Counter[str] = Counter()
+	for i in range(ctx.scale(1, 4)):
+		res.cases += 1
+		res.distinct += 1
+		try:
+			log, shared = production_run(ctx, rng, ctx.scale(1, 2), ctx.scale(2, 5))
+		except Exception as e:  # noqa: BLE001
+			res.findings.append(Finding(key='production-run-raises', what=f'real module loading failed on the logging containers: {exc_enum(e)}: {e}', replay={'run': i}))
+			break
+		modules = [c for c in log.conts if c is not shared]
+		hist['module-containers'] += len(modules)
+		local_paths: set[str] = set()
+		for e in log.entries:
+			if e[0] == 'combine':
+				local_paths.update(e[2].keys())
+		ops_txt = [f'{e[0]} c{e[1]} {getattr(e[2], "__name__", type(e[2]).__name__)}' for e in log.entries if e[0] != 'invoke'][:80]
+
+		def finding(key: str, what: str) -> None:
+			if not any(f.key == key for f in res.findings):
+				res.findings.append(Finding(key=key, what=what, replay={'run': i, 'container_ops_without_invoke': ops_txt}))
+
+		shared_inst = shared._DI__instances
+		for m in modules:
+			try:
+				if m.resolve(Locator) is not m:
+					finding('production-closure-wrong-container', f'Locator resolved through per-module container c{m.cid} is not that container')
+				inv = m.resolve(Invoker)
+				if getattr(inv, '__self__', None) is not m:
+					finding('production-closure-wrong-container', f'Invoker resolved through per-module container c{m.cid} is bound to another container')
+			except Exception as e:  # noqa: BLE001
+				finding('production-closure-wrong-container', f'Locator/Invoker cannot be resolved through per-module container c{m.cid}: {exc_enum(e)}')
+			for symbol, inst in m._DI__instances.items():
+				path = f'{symbol.__module__}.{symbol.__qualname__}'
+				hist['module-instances'] += 1
+				if path in local_paths or symbol in (Locator, Invoker) or not shared.can_resolve(symbol):
+					# module-local: one object per module container, unknown to the shared container
+					hist['module-local'] += 1
+					if path in local_paths and shared.can_resolve(symbol):
+						finding('production-module-local-leak', f'module-local symbol {path} is known to the shared container')
+					for other in modules:
+						if other is not m and other._DI__instances.get(symbol) is inst and symbol not in (Locator, Invoker):
+							finding('production-module-local-leak', f'module-local {path}: containers c{m.cid} and c{other.cid} hold the same object')
+				else:
+					# defined by the shared container: production must have resolved it there before the combine
+					hist['shared-singleton'] += 1
+					if shared_inst.get(symbol) is not inst:
+						finding('production-shared-singleton-split', f'{path} has a private instance in per-module container c{m.cid} '
+							f'({"shared container holds another one" if symbol in shared_inst else "the shared container has none"}): it was first resolved through the module container')
+	res.histogram = dict(hist)
+	res.note = ('after real Modules.load / Entrypoints.load: every instance a per-module container holds is either module-local (distinct object per module, symbol '
+		'unknown to the shared container) or the very object the shared container holds; Locator / Invoker resolved through a module container are that container / '
+		'bound to it. This is the evidence that production relies on combine-time sharing only (Lean: combine_shares / distinct_instances / no_leak / module_invoker_local)')
+	return res
+
+
 # ---------------------------------------------------------------------------------------------
 
 
@@ -973,6 +1386,12 @@ STATEMENTS = {
 	'unknown': 'when can_resolve answers False, resolve raises ValueError and changes nothing',
 	'unknown_invoke': 'invoke, without remaining arguments, of a factory whose first annotated parameter cannot be resolved raises ValueError, on every call',
 	'invoke_fill': 'for every history: invoke curries exactly the leading resolvable annotated parameters of the factory itself, raises ValueError unless the remaining arguments match the remaining annotated parameters one to one, else calls the factory; the annotation cache is invisible (three regression examples = the witnesses that were counterexamples before c3fd82c)',
+	'combine_shares': 'sharing happens at combine time: an instance the left operand holds for a symbol the right operand does not know is what the combined container returns, and the left operand keeps returning it (the law production relies on: handler pre-resolves SyntaxParser/CacheProvider/SymbolMapping before the combine)',
+	'distinct_instances': 'two slots in different containers never come to hold the same instance unless they did already: no late sharing (an instance created in the shared container after the combine is not the clone\'s), one instance per module container for module-local symbols; for every interleaving',
+	'resolve_instOf': 'what a successful resolve returns is what the slot holds afterwards (links observations to the slots of distinct_instances)',
+	'no_leak': 'a symbol a container does not know stays unknown to it (can_resolve False) whatever happens anywhere until it is bound there: module-local symbols never reach the shared container',
+	'invokerFactory_inj': 'closures over different containers are different factories',
+	'module_invoker_local': 'after the body of entrypoints.handler, Invoker resolved through the per-module container was made by the closure over that container (not the shared one), for every continuation that does not re-bind it',
 	'fuel_sufficient': 'fuel is only a device: if the bindings of the history respect a rank (acyclic factory graph), resolve/invoke with more fuel than the rank never yields RecursionError',
 }
 
@@ -980,9 +1399,9 @@ STATEMENTS = {
 def build_cases(ctx: Ctx) -> tuple[World, list[Stream], list[SearchResult]]:
 	w = World(ctx)
 	with ctx.timed('correspondence'):
-		streams = [stream_di(ctx, w), stream_malformed(ctx, w)]
+		streams = [stream_di(ctx, w), stream_malformed(ctx, w), stream_production(ctx, w)]
 	with ctx.timed('search'):
-		searches = [search_reference(ctx, w)]
+		searches = [search_reference(ctx, w), search_production(ctx)]
 	return w, streams, searches
 
 
@@ -992,6 +1411,7 @@ def run(ctx: Ctx) -> int:
 	return common.finish(ctx, proof, streams, searches,
 		statements=STATEMENTS,
 		partial={
+			'usage': 'derived operations di_container / per-module load (Model: diContainerOps, loadModuleOps) with isolation theorems; production op logs replayed on the model (stream di-production) and the isolation laws checked on the real containers (search production laws)',
 			'proved': 'refinement concrete dictionaries -> Spec for every op sequence; singleton per binding generation; rebind discards the instance; combine: right operand wins (bindings, instances, unresolved definitions); frame (operands of combine/clone are unaffected); lazy materialisation is per clone; unknown symbol -> ValueError; the invoke law (fill leading resolvable annotated parameters, validate the rest on every call)',
 			'regression': 'the five defects of the snapshot tree (repaired by c3fd82c / 6d5a231) are corpus cases of the stream and OFF-switches of the reference: their return is reported under the old finding keys with the op sequence',
 			'correspondence_only': 'dictionaries are copied not shared by _clone/combine (the Lean model has value semantics, so aliasing is excluded by construction and tied by the stream, which keeps using all operands after combine); Python-level details of what a factory object exposes (__annotations__ of __to_annotated(factory), hash/equality of that callable, arity)',
